@@ -321,3 +321,193 @@ func mutateTokens(r *rng, w []int, nterm int) []int {
 	}
 	return out
 }
+
+// ---- an independent reading of the sugar (for C01): the documented meaning
+// of ? * + *! @list as operations on languages, desugared here with fresh
+// RIGHT-recursive helper rules (lox uses left-recursive ones) into a plain
+// grammar for the Earley recogniser, and sampled directly from the sugared AST.
+
+func plainGrammar(g *gSpec, termIndex map[string]int) *jDump {
+	d := &jDump{}
+	ruleIdx := map[string]int{}
+	addRule := func(name string) int {
+		if i, ok := ruleIdx[name]; ok {
+			return i
+		}
+		i := len(d.Rules)
+		ruleIdx[name] = i
+		d.Rules = append(d.Rules, jRule{Index: i, Name: name})
+		return i
+	}
+	addProd := func(rule int, terms []jTerm) {
+		p := jProd{Index: len(d.Prods), Rule: rule, Terms: terms}
+		d.Prods = append(d.Prods, p)
+		d.Rules[rule].Prods = append(d.Rules[rule].Prods, p.Index)
+	}
+	sp := addRule("S'")
+	addProd(sp, nil) // patched below
+	for _, r := range g.rules {
+		addRule(r.name)
+	}
+	fresh := 0
+	var simple func(t gTerm) jTerm
+	simple = func(t gTerm) jTerm {
+		switch t.kind {
+		case 0:
+			return jTerm{T: true, I: termIndex[t.name]}
+		case 2:
+			return jTerm{T: true, I: 1}
+		default:
+			return jTerm{T: false, I: addRule(t.name)}
+		}
+	}
+	var term func(t gTerm) jTerm
+	term = func(t gTerm) jTerm {
+		var base jTerm
+		if t.kind == 3 {
+			// @list(x, s) = x (s x)* : L -> x | x s L
+			fresh++
+			l := addRule(fmt.Sprintf("$list%d", fresh))
+			x, s := simple(*t.elem), simple(*t.sep)
+			addProd(l, []jTerm{x})
+			addProd(l, []jTerm{x, s, {T: false, I: l}})
+			base = jTerm{T: false, I: l}
+			if t.card == "?" {
+				fresh++
+				o := addRule(fmt.Sprintf("$opt%d", fresh))
+				addProd(o, []jTerm{base})
+				addProd(o, nil)
+				return jTerm{T: false, I: o}
+			}
+			return base
+		}
+		base = simple(t)
+		switch t.card {
+		case "?":
+			fresh++
+			o := addRule(fmt.Sprintf("$opt%d", fresh))
+			addProd(o, []jTerm{base})
+			addProd(o, nil)
+			return jTerm{T: false, I: o}
+		case "*", "*!":
+			fresh++
+			s := addRule(fmt.Sprintf("$star%d", fresh))
+			addProd(s, nil)
+			addProd(s, []jTerm{base, {T: false, I: s}})
+			return jTerm{T: false, I: s}
+		case "+":
+			fresh++
+			s := addRule(fmt.Sprintf("$plus%d", fresh))
+			addProd(s, []jTerm{base})
+			addProd(s, []jTerm{base, {T: false, I: s}})
+			return jTerm{T: false, I: s}
+		}
+		return base
+	}
+	for _, r := range g.rules {
+		ri := ruleIdx[r.name]
+		for _, p := range r.prods {
+			var ts []jTerm
+			for _, t := range p.terms {
+				ts = append(ts, term(t))
+			}
+			addProd(ri, ts)
+		}
+	}
+	d.Prods[0].Terms = []jTerm{{T: false, I: ruleIdx[g.rules[0].name]}}
+	return d
+}
+
+// sampleSugar derives a token sequence straight from the sugared AST.
+func sampleSugar(r *rng, g *gSpec, termIndex map[string]int, budget int) ([]int, bool) {
+	rules := map[string]*gRule{}
+	for i := range g.rules {
+		rules[g.rules[i].name] = &g.rules[i]
+	}
+	var out []int
+	steps := 0
+	var rule func(name string, depth int) bool
+	var simple func(t gTerm, depth int) bool
+	simple = func(t gTerm, depth int) bool {
+		switch t.kind {
+		case 0:
+			out = append(out, termIndex[t.name])
+			return true
+		case 2:
+			return false // @error: only the parser supplies it
+		default:
+			return rule(t.name, depth+1)
+		}
+	}
+	rep := func(min int, depth int) int {
+		if depth > budget {
+			return min
+		}
+		return min + r.intn(3)
+	}
+	var term func(t gTerm, depth int) bool
+	term = func(t gTerm, depth int) bool {
+		if t.kind == 3 {
+			if t.card == "?" && (depth > budget || r.chance(1, 3)) {
+				return true
+			}
+			n := rep(1, depth)
+			for i := 0; i < n; i++ {
+				if i > 0 && !simple(*t.sep, depth) {
+					return false
+				}
+				if !simple(*t.elem, depth) {
+					return false
+				}
+			}
+			return true
+		}
+		n := 1
+		switch t.card {
+		case "?":
+			n = r.intn(2)
+			if depth > budget {
+				n = 0
+			}
+		case "*", "*!":
+			n = rep(0, depth)
+		case "+":
+			n = rep(1, depth)
+		}
+		for i := 0; i < n; i++ {
+			if !simple(t, depth) {
+				return false
+			}
+		}
+		return true
+	}
+	rule = func(name string, depth int) bool {
+		steps++
+		if steps > 400 || depth > budget+8 {
+			return false
+		}
+		rl := rules[name]
+		if rl == nil {
+			return false
+		}
+		// prefer short productions when deep
+		p := pick(r, rl.prods)
+		if depth > budget {
+			best := rl.prods[0]
+			for _, q := range rl.prods {
+				if len(q.terms) < len(best.terms) {
+					best = q
+				}
+			}
+			p = best
+		}
+		for _, t := range p.terms {
+			if !term(t, depth) {
+				return false
+			}
+		}
+		return true
+	}
+	ok := rule(g.rules[0].name, 0)
+	return out, ok && len(out) <= 60
+}
